@@ -3,3 +3,5 @@ import MidoProofs.SrcTie.Timing
 #print axioms Mido.src_iter
 #print axioms Mido.outOf_times
 #print axioms Mido.src_iter_integral
+#print axioms Mido.src_length
+#print axioms Mido.src_length_integral
